@@ -1044,6 +1044,73 @@ func genGap(seed uint64) string {
 	return "(function() {\n" + s.String() + "})();\n"
 }
 
+// numeric-type programs: BigInt and Number run-time values flowing through
+// arithmetic / bitwise / update sub-expressions under unary - and ~, compared
+// with === / !== against numbers, converted by Number(), typeof'd: a wrong static
+// type (number vs number-or-bigint) changes the outcome
+func genNumTypes(seed uint64) string {
+	r := NewRng(seed)
+	s := &sb{}
+	id := 0
+	bin := []string{"|", "&", "^", "*", "-", "<<", ">>", "%", "/", "**", "+"}
+	inner := func() string {
+		switch r.Intn(6) {
+		case 0:
+			return []string{"p++", "++p", "p--", "--q"}[r.Intn(4)]
+		case 1:
+			return fmt.Sprintf("p %s= q", bin[r.Intn(len(bin))])
+		case 2:
+			return fmt.Sprintf("c ? p : p %s q", bin[r.Intn(len(bin))])
+		default:
+			return fmt.Sprintf("p %s q", bin[r.Intn(len(bin))])
+		}
+	}
+	wrapped := func() string {
+		u := []string{"-", "~", "-", "~", "+", "- -", "~~", "-~"}[r.Intn(8)]
+		return fmt.Sprintf("%s(%s)", u, inner())
+	}
+	nf := r.Range(4, 7)
+	for f := 0; f < nf; f++ {
+		s.line("function nt%d(p, q, c) {", f)
+		s.ind += 2
+		n := r.Range(3, 6)
+		for k := 0; k < n; k++ {
+			id++
+			w := wrapped()
+			lit := []string{"0", "-1", "1", "-0", "NaN", "0n", "-1n", "\"0\"", "null"}[r.Intn(9)]
+			switch r.Intn(9) {
+			case 0, 1:
+				s.line("$(%d, %s %s %s);", id, w, []string{"===", "!==", "==", "!="}[r.Intn(4)], lit)
+			case 2:
+				s.line("$(%d, %s %s %s);", id, lit, []string{"===", "!=="}[r.Intn(2)], w)
+			case 3:
+				s.line("$(%d, Number(%s));", id, w)
+			case 4:
+				s.line("$(%d, typeof (%s));", id, w)
+			case 5:
+				s.line("if (%s %s %s) $(%d, \"t\"); else $(%d, \"f\");", w, []string{"===", "!=="}[r.Intn(2)], lit, id, id)
+			case 6:
+				s.line("$(%d, [%s, %s === %s]);", id, w, w, wrapped())
+			case 7:
+				s.line("%s %s %s;", w, []string{"<", ">=", "==", "==="}[r.Intn(4)], lit) // unused comparison
+			default:
+				s.line("$(%d, (%s) + \"\" + typeof (%s));", id, w, w)
+			}
+		}
+		s.line("return [p, q];")
+		s.ind -= 2
+		s.line("}")
+	}
+	args := []string{"0n, 0n, 0", "1n, 2n, 1", "-1n, 1n, 0", "0, 0, 1", "1, 2, 0", "-1, 1, 1", "0n, 0, 0", "5, 3n, 1", "\"2\", 1, 0", "3n, 3n, 1", "0.5, 2, 0", "null, 1n, 1"}
+	for f := 0; f < nf; f++ {
+		for _, a := range args {
+			id++
+			s.line("try { $(%d, nt%d(%s)); } catch (e) { $(%d, [\"thrown\", e instanceof Error ? e.constructor.name : e]); }", id, f, a, id)
+		}
+	}
+	return "(function() {\n" + s.String() + "})();\n"
+}
+
 // constant-folding tables: many literal-literal operations per program
 func genFoldTable(seed uint64, avoidB bool, viaConst bool) string {
 	r := NewRng(seed)
@@ -1428,6 +1495,8 @@ func runGlue(r *Rng, n int, tier string, st *Stats) {
 	for i := 0; i < nprog; i++ {
 		seed := r.U64()
 		switch {
+		case i%10 == 3:
+			jobs = append(jobs, glueJob{kind: "num-types", seed: seed, source: genNumTypes(seed), loader: api.LoaderJS})
 		case i%10 == 4:
 			jobs = append(jobs, glueJob{kind: "gap", seed: seed, source: genGap(seed), loader: api.LoaderJS})
 		case i%10 == 5:
